@@ -507,12 +507,28 @@ class ref_render_options:
             if (model.on_update or model.on_delete) else '')
 
 
+@abstract('str')
+def the_inline_ref_setting(r):
+    from pydbml.renderer.dbml.default.reference import render_inline_reference as f
+    return f(r)
+
+
+@abstract('str')
+def the_ref_block(r):
+    from pydbml.renderer.dbml.default.reference import render_not_inline_reference as f
+    return f(r)
+
+
 @contract('pydbml.renderer.dbml.default.reference:render_inline_reference')
 class render_inline_reference:
     properties = ('C02', 'C17')
     params = {'model': 'Reference'}
     pure = True
     ret = 'str'
+    returns_defines = True      # callers know the result by name; its content is ensures_ref_setting
+
+    def returns(model):
+        return the_inline_ref_setting(model)
 
     def requires_named(model):
         return (model.type is not None and len(model.col1) > 0 and len(model.col2) > 0 and all(c.name is not None for c in model.col2)
@@ -553,10 +569,14 @@ def dbml_ref_block(r):
 
 @contract('pydbml.renderer.dbml.default.reference:render_not_inline_reference')
 class render_not_inline_reference:
-    properties = ('C02', 'C04', 'C14', 'C17')
+    properties = ('C02', 'C17')
     params = {'model': 'Reference'}
     pure = True
     ret = 'str'
+    returns_defines = True      # callers know the result by name; its content is ensures_block
+
+    def returns(model):
+        return the_ref_block(model)
 
     def requires_sides(model):
         return model.type is not None and side_named(model.col1) and side_named(model.col2)
@@ -567,6 +587,11 @@ class render_not_inline_reference:
 
     def ensures_block(model, result):
         return result == dbml_ref_block(model)
+
+
+def is_inline(r):
+    """Reference.inline: declared inline and not many-to-many (a many-to-many reference is always a block)"""
+    return r._inline and r.type != '<>'
 
 
 @contract('pydbml.renderer.dbml.default.reference:render_reference')
@@ -589,15 +614,16 @@ class dbml_render_reference:
 
     def raises_DBMLError(model):
         return (all(c.table is not None for c in model.col1) and all(c.table is not None for c in model.col2)
-                and ((model._inline and (len(model.col2) > 1 or not same_table(model.col1)))
-                     or (not model._inline and mixed_side(model))))
+                and ((is_inline(model) and (len(model.col2) > 1 or not same_table(model.col1)))
+                     or (not is_inline(model) and mixed_side(model))))
 
     def ensures_inline_setting(model, result):
-        return not model._inline or \
-            result == 'ref: ' + model.type + ' ' + dbml_name(model.col2[0].table) + '."' + model.col2[0].name + '"'
+        # what render_inline_reference gives (its own contract: `ref: <type> <table>."<column>"`)
+        return not is_inline(model) or result == the_inline_ref_setting(model)
 
     def ensures_block(model, result):
-        return model._inline or result == dbml_ref_block(model)
+        # what render_not_inline_reference gives (its own contract: the stand-alone Ref block)
+        return is_inline(model) or result == the_ref_block(model)
 
 
 # ------------------------------------------------------------------------------------------ database
